@@ -2,6 +2,7 @@
 package c01
 
 import (
+	"bytes"
 	stded "crypto/ed25519"
 	"fmt"
 	"math/big"
@@ -21,6 +22,14 @@ func TestMain(m *testing.M) {
 	}
 	h.Main(m)
 }
+
+var primerPK, primerSig = ed.Sign(bytes.Repeat([]byte{7}, 32), []byte("primer"))
+
+var (
+	reusedPK  [32]byte
+	reusedSig = make([]byte, 0, 128)
+	reusedMsg = make([]byte, 0, 8192)
+)
 
 type sigCase struct {
 	Kind string `json:"kind"`
@@ -45,6 +54,30 @@ func checkVerify(c sigCase) (h.Info, error) {
 	}
 	nt := c.Kind != "random" && (stage == "" || stage == "S>=L" || c.Kind == "noncanonical" || c.Kind == "torsion")
 	info := h.Info{Class: cls, NT: nt}
+	// callers that reuse their buffers: the same key / signature / message arrays are overwritten in
+	// place from one case to the next and are the first and the last thing Verify sees in every case
+	// (state kept between calls must not refer to the caller's storage)
+	reuse := func(when string) error {
+		// self-contained (replayable) sequence: a fixed honest triple first, then this case's data
+		// written over it in place
+		copy(reusedPK[:], primerPK)
+		reusedSig = append(reusedSig[:0], primerSig...)
+		reusedMsg = append(reusedMsg[:0], "primer"...)
+		if !ed25519.Verify(ed25519.PublicKey(reusedPK[:]), reusedMsg, reusedSig) {
+			return fmt.Errorf("Verify rejects the fixed honest primer signature (%s)", when)
+		}
+		copy(reusedPK[:], c.PK)
+		reusedSig = append(reusedSig[:0], c.Sig...)
+		reusedMsg = append(reusedMsg[:0], c.Msg...)
+		if g := ed25519.Verify(ed25519.PublicKey(reusedPK[:]), reusedMsg, reusedSig); g != want {
+			return fmt.Errorf("Verify(pk=%x, msg=%x, sig=%x) [%s] = %v when called (%s) with caller buffers that were overwritten in place after holding the previous case's key and signature, ZIP-215 reference = %v", []byte(c.PK), []byte(c.Msg), []byte(c.Sig), c.Kind, g, when, want)
+		}
+		return nil
+	}
+	if err := reuse("first call of the case"); err != nil {
+		return info, err
+	}
+	defer reuse("last call of the case")
 	got := ed25519.Verify(ed25519.PublicKey(append([]byte{}, c.PK...)), append([]byte{}, c.Msg...), append([]byte{}, c.Sig...))
 	if got != want {
 		return info, fmt.Errorf("Verify(pk=%x, msg=%x, sig=%x) [%s] = %v, ZIP-215 reference = %v (first failing condition: %q)", []byte(c.PK), []byte(c.Msg), []byte(c.Sig), c.Kind, got, want, stage)
@@ -135,8 +168,26 @@ func finish(aEnc, rEnc, msg []byte, a, r *big.Int) []byte {
 	return append(append([]byte{}, rEnc...), ed.LEBytes(s, 32)...)
 }
 
+// message lengths far from the short ones: around SHA-512 blocks and around 1 KiB, 2 KiB, 4 KiB
+func genMsg(t *rapid.T) []byte {
+	switch h.Pick(t, "ml", 6, 2, 2) {
+	case 0:
+		return h.Bytes(t, "msg", 0, 48)
+	case 1:
+		return h.BytesN(t, "msgb", h.OneOf(t, "mlb", 63, 64, 65, 111, 112, 127, 128, 129, 255, 256))
+	}
+	base := h.OneOf(t, "mbase", 1024, 2048, 4096)
+	n := base + rapid.IntRange(-100, 40).Draw(t, "moff")
+	fill := rapid.Byte().Draw(t, "mfill")
+	m := make([]byte, n)
+	for i := range m {
+		m[i] = fill + byte(i)
+	}
+	return m
+}
+
 func genBase(t *rapid.T) sigCase {
-	msg := []byte(h.Bytes(t, "msg", 0, 48))
+	msg := genMsg(t)
 	tor := ed.Torsion()
 	a, r := randScalar(t, "a"), randScalar(t, "r")
 	switch h.Pick(t, "kind", 4, 6, 4, 2, 1) {
